@@ -6,6 +6,7 @@ import (
 	"fmt"
 	"log/slog"
 	"regexp"
+	"runtime"
 	"strconv"
 	"strings"
 	"sync"
@@ -28,7 +29,7 @@ type stressArea struct{}
 
 func (stressArea) Gen(r *hx.Rng, n int, _ string, emit func(string)) {
 	for i := 0; i < n; i++ {
-		g, m := r.Range(2, 12), r.Range(20, 200)
+		g, m := hx.Pick(r, []int{1, 2, 3, 6, 7, 8, 12, 13, 17, 24, 33}), r.Range(20, 200)
 		if r.Bool() {
 			emit(fmt.Sprintf("sync %d %d %d %d", g, m, hx.Pick(r, []int{0, 3, 7}), r.Intn(2)))
 		} else {
@@ -46,7 +47,27 @@ type stressSink struct {
 	gate    chan struct{}
 }
 
-var recRx = regexp.MustCompile(`^INF \| \d{4}-\d{2}-\d{2} \| \d{2}:\d{2}:\d{2}\.\d{3} \| m(\d+)-(\d+) \| (?:r\.)?pre=(\d+) (?:r\.)?g=(\d+) (?:r\.)?seq=(\d+) (?:r\.)?pad="(x*)"\n$`)
+var recRx = regexp.MustCompile(`^INF \| \d{4}-\d{2}-\d{2} \| \d{2}:\d{2}:\d{2}\.\d{3} \| m(\d+)-(\d+) \|( [^\n]*)\n$`)
+
+// expectAttrs is what goroutine g's handler (see handlerFor) must print after the bar for its record seq.
+func expectAttrs(g, seq int) string {
+	pad := strings.Repeat("x", padLen(g, seq))
+	rec := func(p string) string { return fmt.Sprintf(" %sg=%d %sseq=%d %spad=%q", p, g, p, seq, p, pad) }
+	switch g % 6 {
+	case 0:
+		return rec("")
+	case 1:
+		return fmt.Sprintf(" r.pre=%d", g) + rec("r.")
+	case 2:
+		return fmt.Sprintf(" pre=%d", g) + rec("")
+	case 3:
+		return fmt.Sprintf(" pre=%d", g) + rec("r.")
+	case 4:
+		return " pre=999" + rec("")
+	default:
+		return fmt.Sprintf(" pre=999 pre2=%d", g) + rec("")
+	}
+}
 
 func padLen(g, seq int) int { return (g*31 + seq*7) % 97 }
 
@@ -55,6 +76,7 @@ func (s *stressSink) Write(p []byte) (int, error) {
 		s.overlap.Add(1)
 	}
 	defer s.active.Add(-1)
+	runtime.Gosched() // widen the window in which a second, unserialised Write would be seen
 	if s.gate != nil {
 		<-s.gate
 	}
@@ -104,13 +126,34 @@ func (stressArea) Run(line string) string {
 
 var stressFailed bool
 
-// handlerFor gives goroutine i its own derivation of the shared root (every third one adds a group).
-func handlerFor(root slog.Handler, i int) slog.Handler {
-	h := root.WithAttrs([]slog.Attr{slog.Int("pre", i)})
-	if i%3 == 1 {
-		h = root.WithGroup("r").WithAttrs([]slog.Attr{slog.Int("pre", i)})
+// family is one root and handlers derived from it; goroutine i logs through handlerFor(i): the root ITSELF, children,
+// grandchildren, siblings, and ONE derived handler object shared by several goroutines (together with its own child) —
+// all of them must serialise on the same sink.
+type family struct {
+	root   slog.Handler
+	shared slog.Handler
+}
+
+func newFamily(root slog.Handler) *family {
+	return &family{root: root, shared: root.WithAttrs([]slog.Attr{slog.Int("pre", 999)})}
+}
+
+func (f *family) handlerFor(i int) slog.Handler {
+	pre := []slog.Attr{slog.Int("pre", i)}
+	switch i % 6 {
+	case 0:
+		return f.root
+	case 1:
+		return f.root.WithGroup("r").WithAttrs(pre)
+	case 2:
+		return f.root.WithAttrs(pre)
+	case 3:
+		return f.root.WithAttrs(pre).WithGroup("r")
+	case 4:
+		return f.shared
+	default:
+		return f.shared.WithAttrs([]slog.Attr{slog.Int("pre2", i)})
 	}
-	return h
 }
 
 func logOne(h slog.Handler, g, seq int) error {
@@ -132,10 +175,7 @@ func judge(writes [][]byte, g, m int) (count int, problem string) {
 		}
 		gi, _ := strconv.Atoi(string(mm[1]))  //nolint:errcheck // matched digits
 		seq, _ := strconv.Atoi(string(mm[2])) //nolint:errcheck // matched digits
-		pre, _ := strconv.Atoi(string(mm[3])) //nolint:errcheck // matched digits
-		g2, _ := strconv.Atoi(string(mm[4]))  //nolint:errcheck // matched digits
-		s2, _ := strconv.Atoi(string(mm[5]))  //nolint:errcheck // matched digits
-		if gi != g2 || seq != s2 || pre != gi || gi >= g || seq >= m || len(mm[6]) != padLen(gi, seq) || bytes.Contains(w, []byte("r.")) != (gi%3 == 1) {
+		if gi >= g || seq >= m || string(mm[3]) != expectAttrs(gi, seq) {
 			return 0, "a Write mixes records: " + strconv.Quote(string(w))
 		}
 		if seq <= last[gi] {
@@ -155,13 +195,14 @@ func stressSync(g, m, failMod int, multi bool) string {
 		s2 = &stressSink{}
 		root = multilog.New(root, tracelog.New(&tracelog.Config{Sink: s2}))
 	}
+	fam := newFamily(root)
 	var wg sync.WaitGroup
 	problems := make(chan string, g)
 	for i := 0; i < g; i++ {
 		wg.Add(1)
 		go func(i int) {
 			defer wg.Done()
-			h := handlerFor(root, i)
+			h := fam.handlerFor(i)
 			for seq := 0; seq < m; seq++ {
 				err := logOne(h, i, seq)
 				wantFail := failMod > 0 && (i+seq)%failMod == 0
@@ -217,6 +258,7 @@ func stressBuf(g, m, depth int, stall bool) string {
 		s.gate = make(chan struct{})
 	}
 	root := tracelog.New(&tracelog.Config{Sink: s, BufferDepth: depth})
+	fam := newFamily(root)
 	var wg sync.WaitGroup
 	var slowest atomic.Int64
 	var nonNil atomic.Int32
@@ -224,7 +266,7 @@ func stressBuf(g, m, depth int, stall bool) string {
 		wg.Add(1)
 		go func(i int) {
 			defer wg.Done()
-			h := handlerFor(root, i)
+			h := fam.handlerFor(i)
 			for seq := 0; seq < m; seq++ {
 				t0 := time.Now()
 				if err := logOne(h, i, seq); err != nil {
